@@ -641,6 +641,25 @@ func (e *env) sameRatio() {
 				a2[len(a2)-1] = geo(new(big.Int), tau, sh.l1[len(sh.l1)-1])
 				e.verdict(op, "one-all-identity-slice/"+sc, false, rel(a2, b), desc(a2, b), call(a2, b, si))
 			}
+			// every slice of one group made of identities: that group holds no representative of the ratio, which is
+			// documented as an error - in every argument order, whatever the other group holds (here: not geometric)
+			if round == 0 {
+				for gi, gname := range []string{"g1", "g2"} {
+					a3, b3 := cp2(a), cp2(b)
+					zero, other := &a3, &b3
+					if gi == 1 {
+						zero, other = &b3, &a3
+					}
+					for i := range *zero {
+						(*zero)[i] = geo(new(big.Int), tau, len((*zero)[i]))
+					}
+					last := len((*other)[0]) - 1
+					(*other)[0][last] = e.other((*other)[0][last])
+					for order := 0; order < 3; order++ {
+						e.forged(op, fmt.Sprintf("all-slices-of-%s-are-identities/order%d", gname, order), desc(a3, b3), call(a3, b3, order))
+					}
+				}
+			}
 			fg := func(kind string, a2, b2 [][]*big.Int) {
 				if rel(a2, b2) {
 					return // the substitution happened to keep the statement true
